@@ -272,7 +272,7 @@ def main(ctx):
                 "module text")
     nb = 32 if ctx.quick else 160
     jobs = [{"seed": ctx.rng("b", i).random(),
-             "count": 4 if ctx.quick else 20,
+             "count": 3 if ctx.quick else 20,
              "placements": 5 if ctx.quick else 12,
              "ninputs": 4 if ctx.quick else 6} for i in range(nb)]
     for res in ctx.pmap("vf.checks.c28", "batch", jobs, timeout=3400):
